@@ -14,6 +14,8 @@ import (
 	"encoding/json"
 	"flag"
 	"fmt"
+	"io"
+	"log"
 	"os"
 	"os/exec"
 	"path/filepath"
@@ -97,6 +99,7 @@ func cmdWorker(args []string) int {
 	fs.StringVar(&pm.SelfExe, "self", "", "")
 	fs.Parse(args)
 	pm.Thorough = pm.Tier == "thorough"
+	log.SetOutput(io.Discard) // the library logs warnings; they are not part of any compared result
 	if *known != "" {
 		k, err := engine.LoadKnown(*known)
 		if err != nil {
